@@ -3,8 +3,13 @@ Line-protocol driver for the executable models (`kmodel <stream>`): one operatio
 one canonical output line per operation.  Imports only `Kanzi.Model.*` (core Lean), so it links.
 -/
 import Kanzi.Model.Normalize
+import Kanzi.Model.Protocol
 
 open Kanzi
+
+/-- String helpers kept on `List Char` (stable across String API changes). -/
+def sdrop (s : String) (n : Nat) : String := String.mk (s.toList.drop n)
+def shead (s : String) : Char := s.toList.headD ' '
 
 def joinNat (l : List Nat) : String := " ".intercalate (l.map toString)
 
@@ -25,12 +30,123 @@ def norm (line : String) : String :=
     | _ => "bad-op"
   | _ => "bad-op"
 
+/-! ### proto: replay a recorded hook trace through `encStep` / `decStep` -/
+
+open Protocol in
+def parseCtr (s : String) : Option (Option Nat) :=
+  if s = "-" then some none else (s.toNat?).map some
+
+open Protocol in
+/-- apply one trace token; returns the new state or an error description -/
+def protoApply (enc : Bool) (n : Nat) (s : St) (tok : String) : Except String St :=
+  let step := if enc then encStep else decStep
+  let kind := shead tok
+  let rest := (sdrop tok 1).splitOn ":"
+  match rest with
+  | [] => .error "empty"
+  | istr :: vs =>
+    match istr.toNat? with
+    | none => .error "bad-index"
+    | some i =>
+      if i ≥ n then .error "task-out-of-range" else
+      let app (s : St) (e : Ev) : Except String St :=
+        match step s e with
+        | some t => .ok t
+        | none => .error "not-enabled"
+      let chk (t : St) : Except String St :=
+        match vs with
+        | [v] => match parseCtr v with
+          | some c => if t.ctr = c then .ok t else .error "counter-mismatch"
+          | none => .error "bad-value"
+        | _ => .error "missing-value"
+      match kind with
+      | 'L' => match vs with
+        | [v] => match parseCtr v with
+          | some c => app s (.load i c)
+          | none => .error "bad-value"
+        | _ => .error "missing-value"
+      | 'B' => app s (.ioBegin i)
+      | 'E' => app s (.ioEnd i)
+      | 'S' => app s (.ioEos i)
+      | 'I' => app s (.ioFail i)
+      | 'F' => app s (.fail i)
+      | 'W' => app s (.postDone i)
+      | 'P' => do let t ← app s (.pub i); chk t
+      | 'D' => do let t ← app s (.dpub i); chk t
+      | 'X' => app s (.exit i)
+      | 'C' =>
+        -- a natural failure has no event of its own: the deferred cancel is its first sign
+        let p : Pc := s.pc i
+        if p = Pc.dErr then app s (.cancel i)
+        else if p = Pc.crit ∨ p = Pc.io then do let t ← app s (.ioFail i); app t (.cancel i)
+        else if (enc ∧ p = Pc.work) ∨ (¬ enc ∧ p = Pc.post) then do let t ← app s (.fail i); app t (.cancel i)
+        else .error "cancel-from-unexpected-pc"
+      | _ => .error "unknown-token"
+
+open Protocol in
+def anyFailed (n : Nat) (s : St) : Bool := (List.range n).any (fun i => s.failed i)
+
+open Protocol in
+def maxTask (toks : List String) : Nat :=
+  toks.foldl (fun m t => match ((sdrop t 1).splitOn ":").head? with
+    | some x => match x.toNat? with
+      | some i => max m (i + 1)
+      | none => m
+    | none => m) 0
+
+open Protocol in
+/-- replay one batch; returns (accepted-state | error) -/
+def protoBatch (enc : Bool) (n : Nat) (toks : List String) : Except String St := do
+  let init := if enc then encInit else decInit
+  let mut s := init
+  let mut k := 0
+  for t in toks do
+    if t.startsWith "end:" then
+      -- WaitGroup join: every task that took part must be done, and the counter is what was seen
+      let spawned := maxTask (toks.filter (fun x => ¬ x.startsWith "end:"))
+      if (List.range spawned).any (fun i => s.pc i ≠ .done) then
+        throw s!"batch-end-before-all-done at {k}"
+      match parseCtr (sdrop t 4) with
+      | some c => if s.ctr ≠ c then throw s!"final-counter-mismatch at {k}"
+      | none => throw "bad-end"
+    else
+      match protoApply enc n s t with
+      | .ok s' => s := s'
+      | .error e => throw s!"{e} at event {k} ({t})"
+    k := k + 1
+  return s
+
+/-- `proto side=enc n=4 ... | batch first=0 : L0:0 B0 ... end:4 | batch ...` -/
+def proto (line : String) : String :=
+  match line.splitOn "|" with
+  | [] => "bad-op"
+  | hd :: batches =>
+    let ws := (hd.splitOn " ").filter (· ≠ "")
+    let getv (k : String) : Option String :=
+      (ws.filterMap (fun w => if w.startsWith (k ++ "=") then some (sdrop w (k.length + 1)) else none)).head?
+    let enc := getv "side" = some "enc"
+    match (getv "n").bind String.toNat? with
+    | none => "bad-op"
+    | some n =>
+      let rec go (bs : List String) (total : Nat) (b : Nat) : String :=
+        match bs with
+        | [] => if enc then s!"err=0 frames={total}" else s!"err=0 delivered={total}"
+        | x :: xs =>
+          let toks := ((x.splitOn " ").filter (· ≠ "")).dropWhile (· ≠ ":") |>.drop 1
+          match protoBatch enc n toks with
+          | .error e => s!"reject batch={b} {e}"
+          | .ok s =>
+            if anyFailed n s then
+              if enc then s!"err=1 frames={total + s.log.length}" else s!"err=1 delivered={total}"
+            else go xs (total + s.log.length) (b + 1)
+      go batches 0 1
+
 end Drv
 
 partial def loop (h : IO.FS.Stream) (out : IO.FS.Stream) (f : String → String) : IO Unit := do
   let line ← h.getLine
   if line.isEmpty then return ()
-  let l := (line.dropRightWhile (fun c => c = '\n' || c = '\r'))
+  let l := String.mk (line.toList.reverse.dropWhile (fun c => c = '\n' || c = '\r')).reverse
   out.putStrLn (f l)
   loop h out f
 
@@ -39,4 +155,5 @@ def main (args : List String) : IO UInt32 := do
   let stdout ← IO.getStdout
   match args with
   | ["norm"] => loop stdin stdout Drv.norm; return 0
+  | ["proto"] => loop stdin stdout Drv.proto; return 0
   | _ => IO.eprintln "usage: kmodel <norm>"; return 2
